@@ -1,34 +1,57 @@
-(* Properties_C08_req.v — C08 for the REQ sketch: what is PROVED about unbiasedness over the internal coin flips.
+(* Properties_C08_req.v — C08 for the REQ sketch: exact unbiasedness over the internal coin flips, and the published error.
 
    Estimator: est p cs = sum over the compactors of 2^lg_weight * #{retained items satisfying p}; with p = "<= x" /
    "< x" this is get_rank(x) * n (theorem C07_req_rank_is_estimator).
 
-   FULL STATEMENT (not proved here, checked by exhaustive enumeration of all coin outcomes on the implementation,
-   see checks/fam_req.py RULE_C08):
-     forall history x, sum over all outcomes of the fresh coins of est (<= x) (final state) = 2^m * true rank,
-     with m = number of coins drawn, the same for every outcome.
-   Missing step: a compaction with an odd state_ draws no coin but negates the compactor's stored coin, so it is not
-   conditionally fair given the past; unbiasedness then needs "the coin of a level-h compactor is independent of the
-   contents of level h" (a level's coins only influence higher levels), a non-interference argument over the whole
-   history that is not formalised.  What IS proved, for every reachable state, every query predicate and both modes:
+   MAIN THEOREM (C08_req_unbiased, proved in ReqFull.v): for every history that is a merge tree of updates (any k, both
+   modes, any items), every query point and both criteria, the sum over ALL outcomes of the coins of get_rank * n equals
+   2^m * true rank, where m is the number of coins that EVERY outcome draws.  The reused (negated) coin of odd
+   compactions is covered: per outcome, estimate = true count + sum over levels h of 2^h * g_h (g_h = signed error
+   accumulated by the compactions of level h, carried as ghost state of an instrumented semantics that erases to the
+   model); negating every coin of level h (initial coins of level-h compactors and fresh coins of level-h compactions)
+   is a bijection on outcomes that leaves all compactors below level h unchanged, keeps the items of level-h compactors
+   while negating their stored coin, and changes the sign of g_h; hence the sum of g_h over all outcomes is 0.
+   The theorem is about the REPAIRED constructor (ic = true); for the original coin_ = false it is false
+   (C08_req_unset_coin_biased_refuted).  Not covered: histories that are DAGs (a sketch copied and merged with itself or
+   with a descendant), where the same coin variable occurs in both operands; these are checked by enumeration only.
+
+   Also proved, for every reachable state and query predicate (used as lemmas or of independent interest):
      - every operation step other than a compaction changes the estimator exactly like the true rank
        (C08_req_update_merge_exact_partial);
      - a compaction with an even state_ is a fair coin flip whose two outcomes add up to twice the estimate before
-       (C08_req_fresh_coin_unbiased_partial) - the compaction range, hence the kept items, do not depend on the coin;
+       (C08_req_fresh_coin_unbiased_partial);
      - a compaction with an odd state_ draws no coin (C08_req_odd_compaction_draws_no_coin);
-     - the pairing argument on ONE compactor: a fresh-coin compaction followed by the negated-coin compaction of the
-       same compactor, whatever the compactor holds in between as long as it is the same for both values of the coin,
-       sums over the coin to twice the uncompacted estimate (C08_req_negated_pair_unbiased_partial);
+     - the pairing argument on ONE compactor (C08_req_negated_pair_unbiased_partial);
      - the number of coins an update or a merge draws, and all sizes, state_ counters and section parameters it
        leaves behind, do not depend on the outcomes of the coins nor on the item values
        (C08_req_flip_count_independent, C08_req_lockstep);
-     - the original constructor (coin_ = false) makes the negated coin a constant after a merge and the estimator
-       biased: a concrete reachable history whose exhaustive coin sum is 32 instead of 34
-       (C08_req_unset_coin_refuted); the same history is exactly unbiased once the constructor draws the coin. *)
+     - the exact band of is_exact_rank (C08_req_exact_band). *)
 From Coq Require Import ZArith List Bool Lia Permutation Sorted.
-From DS Require Import RunnerLib SortedView ReqDefs ReqProofs ReqView ReqUnbiased ReqFlips ReqExact Regression_req.
+From DS Require Import RunnerLib SortedView ReqDefs ReqProofs ReqView ReqUnbiased ReqFlips ReqExact ReqFull Regression_req.
 Import ListNotations.
 Local Open Scope Z_scope.
+
+(* htree: a merge tree of updates; run true hr t: the choice tree of the sketch it produces (all sketches in mode hr, the
+   constructor drawing its first coin); hlog t: the stream; hwf t: every k fits uint16.  msum f T = sum of f over all
+   outcomes (leaves) of T; mdepth T = number of coins on the all-false path - by the second clause, on EVERY path. *)
+Theorem C08_req_unbiased : forall hr t x incl, hwf t ->
+  let T := run true hr t in
+  msum (fun s => qrank s x incl) T = 2 ^ Z.of_nat (mdepth T) * cnt (below x incl) (hlog t) /\
+  (forall cs s r, replay T cs = Some (s, r) -> (length cs = mdepth T + length r)%nat).
+Proof. exact rank_unbiased. Qed.
+
+(* the same for every predicate on items (not only rank predicates), in the form sum = (number of outcomes) * true count *)
+Theorem C08_req_unbiased_any_predicate : forall p hr t, hwf t ->
+  msum (fun s => est p (comps s)) (run true hr t) = msum (fun _ => 1) (run true hr t) * cnt p (hlog t).
+Proof. exact unbiased. Qed.
+
+(* every outcome of a history is a reachable state that has been given exactly the history's stream *)
+Theorem C08_req_histories_are_reachable : forall ic hr t s, hwf t -> leaf (run ic hr t) s -> reach ic s (hlog t) /\ hra s = hr.
+Proof. intros ic hr t s W L. now apply run_reach. Qed.
+
+(* per level: the signed error of the compactions of one level sums to zero over all outcomes *)
+Theorem C08_req_level_error_cancels : forall p hr t h, msum (fun sg : req * G => snd sg h) (run_g p hr t) = 0.
+Proof. exact level_error_sums_to_zero. Qed.
 
 Theorem C08_req_fresh_coin_unbiased_partial : forall ic s log h p, reach ic s log ->
   (S h < length (comps s))%nat -> nom_cap (getc s h) <= nitems (getc s h) -> Z.odd (cstate (getc s h)) = false ->
@@ -132,6 +155,17 @@ Example C08_req_nonvacuous : muniform (hist true) = true /\ mdepth (hist true) =
   msum est16 (hist true) = 2 ^ 5 * 17 /\ cnt (below 16 true) hist_log = 17.
 Proof. destruct hist_new_values as (A & B & C). destruct hist_old_values as (_ & _ & _ & D). auto. Qed.
 
+(* non-vacuity of C08_req_unbiased: the history of Regression_req (24 updates, merge into a fresh sketch, 26 updates) as a tree *)
+Definition ex_tree : htree :=
+  fold_left HUpd (stream 100 26) (HMerge (HNew 4) (fold_left HUpd (stream 0 24) (HNew 4))).
+Example C08_req_unbiased_nonvacuous : hwf ex_tree /\ mdepth (run true false ex_tree) = 5%nat /\
+  msum (fun s => qrank s 16 true) (run true false ex_tree) = 2 ^ 5 * 17 /\ cnt (below 16 true) (hlog ex_tree) = 17.
+Proof. vm_compute. repeat split; try discriminate; reflexivity. Qed.
+
+Print Assumptions C08_req_unbiased.
+Print Assumptions C08_req_unbiased_any_predicate.
+Print Assumptions C08_req_histories_are_reachable.
+Print Assumptions C08_req_level_error_cancels.
 Print Assumptions C08_req_fresh_coin_unbiased_partial.
 Print Assumptions C08_req_odd_compaction_draws_no_coin.
 Print Assumptions C08_req_update_merge_exact_partial.
